@@ -189,26 +189,12 @@ class C07Machine(AccfgMachine):
         self.clobbered_since_setup = {}
         self._cur = []
 
-    def _h_for(self, op):
-        # count iterations per loop block for the claim hook
-        from vf.interp.core import signed, width_of, wrap
+    def on_iteration(self, op, block, n):
+        self.loop_iters[id(block)] = n
 
-        w = width_of(op.lb.type)
-        lb, ub, step = signed(self.get(op.lb), w), signed(self.get(op.ub), w), signed(self.get(op.step), w)
-        if step <= 0:
-            raise MachineError("non-positive step")
-        carried = [self.get(a) for a in op.iter_args]
-        block = op.body.blocks[0]
-        i = lb
-        n = 0
-        while i < ub:
-            self.loop_iters[id(block)] = n
-            kind, vals = self.run_block(block, [wrap(i, w), *carried])
-            carried = vals
-            i += step
-            n += 1
-        self.last_trip_count[id(op)] = n
-        self.set_results(op, carried)
+    def on_loop_exit(self, op, trips=None):
+        super().on_loop_exit(op, trips)
+        self.last_trip_count[id(op)] = trips
 
     def clobber(self, why="call"):
         super().clobber(why)
